@@ -30,7 +30,7 @@ Record dop : Type := mkdop { d_op : opk; d_x : N; d_value : option anchor; d_ori
 
 Definition mem (x : N) (l : list N) : bool := existsb (N.eqb x) l.
 
-(* the loop "for (first_pos = 0; first_pos < COUNT; ++first_pos) if (inst[first_pos] == first) break;" *)
+(* the loop: for (first_pos = 0; first_pos < COUNT; ++first_pos) if (inst[first_pos] == first) break; *)
 Fixpoint find_pos (x : N) (l : list N) : nat :=
   match l with
   | [] => O
@@ -114,7 +114,7 @@ Fixpoint diff_pass1 (l1 l2 inst : list N) (pos : nat) : list tr * list N :=
      orig-value = inst[first_pos - 1], then
         memmove(inst + second_pos + 1, inst + second_pos, (first_pos - second_pos) * sizeof *inst);
         inst[second_pos] = first;
-     which for first_pos >= second_pos is "remove at first_pos, insert at second_pos" (for
+     which for first_pos >= second_pos is: remove at first_pos, insert at second_pos (for
      first_pos < second_pos the uint32_t difference wraps and the memmove runs wild; the model then
      still computes remove/insert, and userord_memmove_safe shows the case never arises). *)
 Fixpoint diff_pass2 (l1 l2 inst : list N) (pos : nat) : list tr :=
@@ -147,9 +147,9 @@ Definition userord_diff (l1 l2 : list N) : list dop := map t_op (userord_trace l
 
 (* State of the patched tree: the sibling list as seen from the true first sibling, and the node
    that *first_node (the caller's *data) points to, by value (None = NULL).  The pointer matters:
-   lyd_diff_insert() repairs it only in some branches ("if (*first_node == new_node) *first_node =
-   anchor" is wrong when the moved first instance lands behind a later anchor), and the delete
-   branch advances it with "->next", so a stale pointer that reaches the end of the list becomes
+   lyd_diff_insert() repairs it only in some branches (after lyd_insert_after: when *first_node is
+   the moved node it is set to the anchor, which is wrong when the moved first instance lands behind a
+   later anchor), and the delete branch advances it to its next sibling, so a stale pointer that reaches the end of the list becomes
    NULL and the rest of the tree is lost (state ([], None)). Searching (lyd_find_sibling_first/_val)
    always restarts from the true first sibling, so the stale pointer does not affect lookups. *)
 Definition st : Type := (list N * option N)%type.
@@ -166,7 +166,7 @@ Definition st_insert (linked : bool) (x : N) (a : anchor) (s : st) : res st :=
   | Some fv =>
       match a with
       | Some v =>
-          if negb (mem v l) then Err 1              (* LY_ENOTFOUND -> "instance to insert next to not found" *)
+          if negb (mem v l) then Err 1              (* LY_ENOTFOUND: instance to insert next to not found *)
           else if linked && (v =? x) then Err 1     (* lyd_insert_after(): sibling == node *)
           else Ok (insert_after v x (if linked then remove1 x l else l),
                    if linked && (fv =? x) then Some v else Some fv)
